@@ -26,6 +26,7 @@ pub fn build(family: &str, rng: &mut Rng, index: u64) -> Option<Plan> {
 		"F6" => Some(super::f6::random(rng)),
 		"F6x" => super::f6::exhaustive(index),
 		"F6c" => Some(super::f6::crash_mid_save(rng)),
+		"F6f" => Some(super::f6::faulted(rng)),
 		"F6t" => super::f6::truncation(index),
 		"F7" => Some(f7(rng, index)),
 		"F5" => Some(f5(rng, index)),
